@@ -33,7 +33,9 @@ CHECKS = {
             "vectors 1-63); RTE restores CCR/PC/SP from the frame. Entry∘RTE identity follows from the two summaries.", "4 C06"),
     "C07": ("abstract interpretation of MIR: decode partition by BDD path conditions over the instruction words",
             "All 2^16 first words and all continuation words symbolically: every valid encoding of the 238 implemented forms consumes its encoded length "
-            "and is not rejected; the 27 patterns of the listed unimplemented instructions have no Ok path; traces partition the input space.", "4 C07"),
+            "and is not rejected; the 27 patterns of the listed unimplemented instructions have no Ok path; traces partition the input space; the set of "
+            "successfully executed word sequences outside all valid encodings is contained in the reviewed table of reserved-bit patterns the emulator "
+            "ignores (a continuation word of the wrong group accepted under a prefix is reported).", "4 C07"),
     "C08": ("abstract interpretation of MIR (BDD bit-vector domain): address operand of every bus access vs manual EA",
             "Every Bus::read/Bus::write address reached from an instruction, and every address-register write-back, equals the manual's EA modulo 2^24 "
             "for all register values including non-zero upper bytes and wrapping sums.", "4 C08"),
@@ -63,15 +65,19 @@ CHECKS = {
     "C18": ("abstract interpretation over abstract strings (terms): message loop of run, parse_u8/parse_ioport, send worker; call-chain facts of the channel plumbing",
             "Two consecutive symbolic lines per batch: the second is always fetched unless the first is cmd:stop; keyword dispatch, pause flag function, "
             "parse rules (3 fields, hex, errors swallowed, no panic), written text == escape(m)+newline (replace-chain term, or per-element transducer "
-            "check over all byte / scalar values for piecewise-built text), one write+flush per message.", "4 C18"),
+            "check over all byte / scalar values for piecewise-built text), one write+flush per message; receive worker (CFG path rules): on every path "
+            "between two read_line calls the line buffer is reset and the line is forwarded at most once.", "4 C18"),
     "C16": ("abstract interpretation of the three port handlers over array abstractions (symbolic port number and values); cofactor test",
-            "Per bit, all values, all 11 ports: stored DR after DR/DDR/pin events, pin recording, isolation of the port's three cells, invalid ports "
+            "Routing: for all 2^32 addresses Bus::write invokes the DDR / DR handler exactly for the 11 DDR / DR addresses of ports 1-B, with the "
+            "written address and value, whenever the value differs from the stored one (a window address that is not routed, or a routed address outside "
+            "the window, is reported; handler panics are judged on the addresses really routed). Per bit, all values, all 11 ports: stored DR after DR/DDR/pin events, pin recording, isolation of the port's three cells, invalid ports "
             "ignored, every step announces DR'&DDR' with the current state count or leaves the driven value unchanged; latch retention refuted by a "
             "cofactor test (known finding). Arbitrary interleavings are the closure of the step functions (not mechanised).", "4 C16"),
     "C17": ("abstract interpretation of update_tcr, the accumulation prologue and one generalised tick of update_timer8_0; who-writes-field value sets",
             "TCR decode tables, phase bound and phase preservation at a clock change, ticks = (residual+states) div divisor / residual mod divisor for "
             "every divisor, one tick == reference (TCNT+1, selected clear, sticky exact flags, one request per enabled event), exact loop count, only "
-            "TCNT0/TCSR0 stored, no Bus::write re-entry. Partition-equivalence over whole histories follows by telescoping (stated).", "4 C17"),
+            "TCNT0/TCSR0 stored, no Bus::write re-entry; registers kept in locals across the ticks are followed (role by entry value, write-back at loop exit); "
+            "a request deferred through a record that cannot count (idempotent update) while the event can recur within one charge is reported. Partition-equivalence over whole histories follows by telescoping (stated).", "4 C17"),
     "C14": ("abstract interpretation of the MES gate with the copy loop generalised at its header (base case, inductive step, exit), byte vectors/strings as terms",
             "Dispatch on ER0 (104/113/else error); write: argument block at ER1+0/4/8, loop invariant 'vector == bytes buffer[0..i)', one byte read at "
             "buffer+i and appended per iteration, exit exactly at i == length, same text printed once and sent once, no register/CCR/PC/memory write; "
@@ -79,7 +85,7 @@ CHECKS = {
             "the buffer. Byte-exact output follows by induction (stated).", "4 C14"),
     "C15": ("abstract interpretation of every body reachable from run (panic branch path conditions as BDDs) + obligation census with allow-list + call-graph rules",
             "Every Assert terminator and panicking call site (441 sites, 402 bodies) is either shown infeasible in all analysed contexts, reported with a "
-            "concrete witness, or allow-listed with a reason; unanalysed bodies with obligations fail closed; cost-function contexts constant and bounded; "
+            "concrete witness, or allow-listed with a reason; unanalysed bodies with obligations fail closed; cost-function counts bounded in every analysed calling context (literal or passed through helpers); "
             "RefCell re-entrancy excluded by reachability. Dev-profile MIR (overflow checks on) covers both build configurations.", "4 C15"),
     "C11": ("abstract interpretation of the ELF parsers over an abstract cursor and of elf::load with loops generalised at their headers (typed havoc)",
             "Every Ehdr/Phdr/Shdr/Sym field is the big-endian integer at its ELF32 offset; PT_LOAD <=> p_type 1; a copy happens exactly for PT_LOAD headers "
